@@ -99,7 +99,60 @@ struct Log {
 
 struct World {
     ctxts: [ThreadLocalCtxt; 3],
+    /// context #1 wrapped so that its frame is too big for inline erased storage (exercises the boxed path)
+    big: BigCtxt,
     log: Mutex<Log>,
+}
+
+const CANARY: [u64; 4] = [0x1111_2222_3333_4444, 0x5555_6666_7777_8888, 0x9999_aaaa_bbbb_cccc, 0xdddd_eeee_ffff_0001];
+
+static CANARY_BROKEN: std::sync::atomic::AtomicU64 = std::sync::atomic::AtomicU64::new(0);
+
+/// A context whose frame carries a canary next to the real frame: 40 bytes, so `ErasedFrame` must box it.
+#[derive(Clone, Copy)]
+struct BigCtxt(ThreadLocalCtxt);
+
+struct BigFrame {
+    inner: <ThreadLocalCtxt as Ctxt>::Frame,
+    canary: [u64; 4],
+}
+
+impl BigFrame {
+    fn check(&self) {
+        if self.canary != CANARY {
+            CANARY_BROKEN.fetch_add(1, std::sync::atomic::Ordering::SeqCst);
+        }
+    }
+}
+
+impl Ctxt for BigCtxt {
+    type Current = <ThreadLocalCtxt as Ctxt>::Current;
+    type Frame = BigFrame;
+
+    fn open_root<P: Props>(&self, props: P) -> Self::Frame {
+        BigFrame { inner: self.0.open_root(props), canary: CANARY }
+    }
+    fn open_push<P: Props>(&self, props: P) -> Self::Frame {
+        BigFrame { inner: self.0.open_push(props), canary: CANARY }
+    }
+    fn open_disabled<P: Props>(&self, props: P) -> Self::Frame {
+        BigFrame { inner: self.0.open_disabled(props), canary: CANARY }
+    }
+    fn enter(&self, frame: &mut Self::Frame) {
+        frame.check();
+        self.0.enter(&mut frame.inner)
+    }
+    fn with_current<R, F: FnOnce(&Self::Current) -> R>(&self, with: F) -> R {
+        self.0.with_current(with)
+    }
+    fn exit(&self, frame: &mut Self::Frame) {
+        frame.check();
+        self.0.exit(&mut frame.inner)
+    }
+    fn close(&self, frame: Self::Frame) {
+        frame.check();
+        self.0.close(frame.inner)
+    }
 }
 
 impl World {
@@ -117,7 +170,13 @@ impl World {
         *self.log.lock().unwrap().probes.entry(p).or_insert(0) += 1;
     }
     fn erased(&self, i: usize) -> &(dyn ErasedCtxt + Send + Sync) {
-        &self.ctxts[i]
+        if i == 1 {
+            // boxed erased frames
+            &self.big
+        } else {
+            // inline erased frames
+            &self.ctxts[i]
+        }
     }
 }
 
@@ -324,7 +383,7 @@ fn run_sync(w: &Arc<World>, s: &mut Strand, nodes: &Arc<Vec<N>>, slots: &mut Slo
             N::Frame { spec, how, body } => {
                 let value = model_value(s, spec);
                 if spec.erased {
-                    w.probe("erased_frame");
+                    w.probe(if spec.ctxt == 1 { "erased_frame_boxed" } else { "erased_frame_inline" });
                     let frame = make_frame(w.erased(spec.ctxt), spec);
                     use_frame_sync(w, s, frame, spec.ctxt, value, *how, body, slots);
                 } else {
@@ -671,8 +730,11 @@ impl Engine for CtxFrames {
             programs.push(gen_nodes(ch, 0, &mut budget, &mut fresh, true));
         }
 
+        let ctxts = [ThreadLocalCtxt::new(), ThreadLocalCtxt::new(), ThreadLocalCtxt::shared()];
+        let broken_before = CANARY_BROKEN.load(std::sync::atomic::Ordering::SeqCst);
         let w = Arc::new(World {
-            ctxts: [ThreadLocalCtxt::new(), ThreadLocalCtxt::new(), ThreadLocalCtxt::shared()],
+            ctxts,
+            big: BigCtxt(ctxts[1]),
             log: Mutex::new(Log {
                 trace: Vec::new(),
                 violations: Vec::new(),
@@ -773,6 +835,9 @@ impl Engine for CtxFrames {
         drop(tasks);
         drop(lanes);
 
+        if CANARY_BROKEN.load(std::sync::atomic::Ordering::SeqCst) != broken_before {
+            w.violate("erased_frame_corrupted", "a boxed type-erased frame came back with a damaged payload".into());
+        }
         let mut log = w.log.lock().unwrap();
         for (rule, d) in log.violations.drain(..) {
             if rule == "harness" {
